@@ -774,7 +774,11 @@ def main():
         print("  - %s [%s]: %d inputs; smallest: %s" % (kind, sig, occ, label))
     chk.assumptions += ["dependencies of a definition = the names the generator wrote into it (types, constants, enumerators' enums)",
                         "CPython importlib / xml.etree are trusted"]
-    return chk.finish(level="exploration")
+    # the sort itself: theorem C15_sorted_complete about the Coq model PcSort, tied to model.topological_sort here
+    import sortcorr
+    sortcorr.run(chk, 400 if chk.tier == 'quick' else 8000, 3)
+    chk.assumptions += ['the theorem is about the sort given complete dependency lists; that dependencies() is complete (every name a definition mentions) and that the generated module imports is decided by the permutation run']
+    return chk.finish(level="proof")
 
 
 if __name__ == "__main__":
